@@ -317,10 +317,16 @@ class Dimension:
         if self._initialized:
             return
 
+        # this instance is already interned in `_known` (and `Dimension.define` reads
+        # the `exponents` of every interned dimension), so it gets all of its
+        # attributes before a name can be rejected
+        self.exponents = exponents
+        self.name = None
+        self.symbol = None
+
         if name and name in self._by_name and self._by_name[name] is not self:
             raise ValueError(f"A dimension named {name} is already defined")
 
-        self.exponents = exponents
         self.name = name
         self.symbol = symbol
         self._initialized = True
